@@ -283,9 +283,16 @@ TCloseOne(x) ==
 
 TCloseEnd ==
     /\ cl = "locked" /\ \A x \in conns : lclosed[x]
-    /\ tm' = "free" /\ cl' = "done"
-    /\ H([a |-> "TCloseRet"])
+    /\ tm' = "free" /\ cl' = "ret"
+    /\ NoH
     /\ UNCHANGED <<callVars, chistVars, lzVars, uVars, tclosed, conns, nd, ndmax, spurious>>
+    /\ NoFlip
+
+\* Close has returned (observed by the controller)
+TCloseObs ==
+    /\ cl = "ret" /\ cl' = "done"
+    /\ H([a |-> "TCloseRet"])
+    /\ UNCHANGED <<callVars, chistVars, lzVars, uVars, tclosed, tm, conns, nd, ndmax, spurious>>
     /\ NoFlip
 
 ------------------------------------------------------------------------------
@@ -307,7 +314,7 @@ Cancel(c) ==
 ------------------------------------------------------------------------------
 CallProgress(c) ==
     GetRX(c) \/ EarlyWake(c) \/ EarlyCtx(c) \/ ExchReq(c) \/ ExchFail(c) \/ ExchCtx(c) \/ Retry(c) \/ Fail(c)
-CloserStep == TCloseLock \/ (\E x \in ConnIds : TCloseOne(x)) \/ TCloseEnd
+CloserStep == TCloseLock \/ (\E x \in ConnIds : TCloseOne(x)) \/ TCloseEnd \/ TCloseObs
 
 \* steps of the code (a dead or closed connection fails its exchanges by itself)
 CodeStep ==
@@ -344,7 +351,7 @@ AttemptsBounded == \A c \in Calls : att[c] <= AttemptBound /\ writes[c] <= att[c
 \* C07
 ErrOnFault == \A c \in Calls : (Ended(c) /\ res[c] = "ok") => got[c]
 ClosedRejects == \A c \in Calls : (startedClosed[c] /\ Ended(c)) => (res[c] = "tclosed" /\ writes[c] = 0 /\ att[c] = 1)
-CloseClosesAll == cl = "done" => \A x \in conns : lclosed[x] /\ (lz[x] = "dialed" => uclosed[x])
+CloseClosesAll == cl \in {"ret", "done"} => \A x \in conns : lclosed[x] /\ (lz[x] = "dialed" => uclosed[x])
 \* C09
 QueueBound == \A x \in ConnIds : early[x] >= 0 /\ early[x] <= QueueLimit /\ wg[x] >= 0
 CapBound == \A x \in ConnIds : inuse[x] >= 0 /\ inuse[x] <= ConnCap
